@@ -269,6 +269,36 @@ Definition documented_transport (zx zy : list Q) (sx sy dx dy : list nat) (ps : 
   | None => false
   end.
 
+(* ---------- a move split into legs (move_by_waypoints with pick on the first call and drop on the last): the paths of
+   consecutive calls are merged into one path when each next path begins, with a waypoint segment, at the very waypoint the
+   previous one ended on.  Proofs/AodLegs.v: the merged path simulates exactly like the sequence of legs. ---------- *)
+Fixpoint split_last_way (acts : list saction) : option (list saction * list (list Q * list Q)) :=
+  match acts with
+  | [] => None
+  | a :: r =>
+      match r with
+      | [] => match a with SWay l => Some ([], l) | _ => None end
+      | _ :: _ => match split_last_way r with Some (pre, l) => Some (a :: pre, l) | None => None end
+      end
+  end.
+Definition merge2 (p q : spath) : option spath :=
+  match split_last_way (p_actions p), p_actions q with
+  | Some (pre, v :: l1), SWay (u :: l2) :: post =>
+      if (p_nx p =? p_nx q) && (p_ny p =? p_ny q) && wp_eqb (last (v :: l1) v) u
+      then Some (mkspath (p_nx p) (p_ny p) (pre ++ SWay ((v :: l1) ++ l2) :: post)) else None
+  | _, _ => None
+  end.
+Fixpoint merge_legs (p : spath) (qs : list spath) : option spath :=
+  match qs with
+  | [] => Some p
+  | q :: r => match merge2 p q with Some m => merge_legs m r | None => None end
+  end.
+Definition legs_transport_ok (T : list pos) (O : list (pos * nat)) (ps : list spath) : bool :=
+  match ps with
+  | p :: qs => match merge_legs p qs with Some m => transport_ok T O [m] | None => false end
+  | [] => false
+  end.
+
 (* rendering *)
 Local Open Scope string_scope.
 Definition show_aerr (e : aerr) : string :=
